@@ -3,7 +3,7 @@
    value); float(text) is a table computed by the harness with Python's float() and repr() -
    the two section hypotheses of the theorems (float(repr x) = x, repr x is a plain non-empty
    cell) are evaluated on every value of every case. *)
-From PJ Require Import Base.Prelude Csv.CsvModel Csv.Fields Csv.Wbs gen.Consts.
+From PJ Require Import Base.Prelude Csv.CsvModel Csv.Fields Csv.Wbs Csv.WbsSpec gen.Consts.
 Open Scope Z_scope.
 
 Definition FV : Type := (text * text)%type.
@@ -124,7 +124,9 @@ Inductive case :=
         implementation's own objects)
      8  the file written from the re-read WBS differs from the model's text for it
     16  a further read/write cycle does not reproduce that file (fixpoint clause)
-    32  a float hypothesis fails on a value of the case *)
+    32  a float hypothesis fails on a value of the case
+   128  (information, not a disagreement) the WBS of the case is outside the domain of the theorems
+        (WbsSpec.wbs_ok_b is false on it) *)
 Definition flag (b : bool) (n : nat) : nat := if b then n else 0%nat.
 
 Definition check_case (c : case) : nat :=
@@ -135,9 +137,11 @@ Definition check_case (c : case) : nat :=
        + flag (negb (Nat.eqb rcode 0 && wbs_equiv_b w w1)) 4
        + flag (negb (text_eqb (m_write w1) file2)) 8
        + flag (negb (text_eqb file3 file2)) 16
-       + flag (negb (floats_ok tab w && floats_ok tab w1)) 32)%nat
+       + flag (negb (floats_ok tab w && floats_ok tab w1)) 32
+       + flag (negb (wbs_ok_b fv_neg w)) 128)%nat
   | CRead tab file rcode w1 meaning =>
       (flag (negb (outcome_matches (m_read tab file) rcode w1)) 2
        + flag (match meaning with Some w => negb (Nat.eqb rcode 0 && wbs_equiv_b w w1) | None => false end) 4
-       + flag (negb (floats_ok tab w1)) 32)%nat
+       + flag (negb (floats_ok tab w1)) 32
+       + flag (match meaning with Some w => negb (wbs_ok_b fv_neg w) | None => false end) 128)%nat
   end.
